@@ -22,9 +22,24 @@ HasStates(sys) == \E i \in DOMAIN sys.classes : sys.classes[i].role = "state"
 \* External variables (C20): sys.marks lists the variables handed to Analyser::addExternalVariable; the value of a marked class is
 \* whatever the callback returns - ExtVal, expressed in the units of the class's home component (u lives in A) - and differs
 \* between the two steps of the run (sys.step) so that everything depending on it has to be computed again.
+\* The generated code is run in two steps: the usual initialise / computeComputedConstants / computeRates / computeVariables at t = 0,
+\* then - as an integrator would after a step - with every state advanced by 5, computeVariables alone, followed by computeRates.
+\* Everything that depends on a state or on an external variable has to follow.  (t stays 0: by the library's pinned design - the
+\* Hodgkin-Huxley expected files - a variable that depends on t alone is refreshed by computeRates only.)
+StepOf(sys) == IF "step" \in DOMAIN sys THEN sys.step ELSE 0
 IsExt(sys, n) == "marks" \in DOMAIN sys /\ \E i \in DOMAIN sys.marks : sys.marks[i].name = n
 ExtBaseOf == [x1 |-> 107, x2 |-> 114, x3 |-> 121, u |-> 128]
-ExtVal(sys, n) == I(ExtBaseOf[n] + 1000 * sys.step)
+\* A well-behaved callback is a function of what the mark declares the variable to depend on: its value for a class changes in the
+\* second step only if a declared dependency moved - a state, or something that reads a state or a moving external variable.
+DeclaredDeps(sys, n) == UNION {{sys.marks[i].deps[j] : j \in DOMAIN sys.marks[i].deps} : i \in {k \in DOMAIN sys.marks : sys.marks[k].name = n}}
+RECURSIVE Moving(_, _, _)
+Moving(sys, n, depth) ==
+    IF depth = 0 \/ n \in {"t", "w"} THEN FALSE
+    ELSE IF IsExt(sys, n) THEN \E d \in DeclaredDeps(sys, n) : Moving(sys, d, depth - 1)
+    ELSE IF n = "u" THEN ("nlaDep" \in DOMAIN sys /\ sys.nlaDep # "none" /\ Moving(sys, sys.nlaDep, depth - 1))
+    ELSE LET c == sys.classes[CHOOSE i \in DOMAIN sys.classes : sys.classes[i].name = n] IN
+         c.role = "state" \/ (c.role \in {"cc", "alg"} /\ \E j \in DOMAIN c.deps : Moving(sys, c.deps[j], depth - 1))
+ExtVal(sys, n) == I(ExtBaseOf[n] + (IF Moving(sys, n, 6) THEN 1000 * sys.step ELSE 0))
 \* The unknowns of the implicit equations live in component A:  one / guess / mixed: u + u = 8 (+ nlaDep), mixed: u + w = 6;
 \* pair: u + w = 5, u - w = 1.  With a dependency (a state or t) on the right-hand side u is a genuine algebraic variable.
 NlaDep(sys) == IF "nlaDep" \in DOMAIN sys THEN sys.nlaDep ELSE NoneS
@@ -40,7 +55,8 @@ Base(sys, n, depth) ==                   \* value in the units of the class's ho
     LET c == Get(sys, n) IN
     IF depth = 0 THEN Undef
     ELSE IF IsExt(sys, n) THEN ExtVal(sys, n)
-    ELSE CASE c.role \in {"const", "state"} -> I(c.init)
+    ELSE CASE c.role = "const" -> I(c.init)
+           [] c.role = "state" -> I(c.init + 5 * StepOf(sys))
            [] c.role \in {"cc", "alg"} -> LET RECURSIVE Sum(_) Sum(i) == IF i > Len(c.deps) THEN I(c.k) ELSE QAdd(Seen(sys, c.deps[i], c.home, depth - 1), Sum(i + 1)) IN Sum(1)
            [] c.role = "nla" -> I(c.init)        \* for NLA unknowns init holds the known solution
 UVal(sys, depth) ==
@@ -87,19 +103,22 @@ WellPosed(sys) ==
 Names == <<"x1", "x2", "x3">>
 DepSeqs(S) == {<<>>} \cup {<<a>> : a \in S} \cup {<<a, b>> : a \in S, b \in S}
 \* zeroK: equations with dependencies have no constant term (dx/dt = x rather than dx/dt = 1 + x)
-Systems(n, homes, zeroK) ==
-    {sys \in {[classes |-> [i \in 1..n |-> Class(Names[i], r[i], 10 * i, IF zeroK /\ d[i] # <<>> THEN 0 ELSE i, d[i], h[i])], nla |-> NoneS, nlaDep |-> NoneS] :
-              r \in [1..n -> {"const", "cc", "state", "alg"}], d \in [1..n -> DepSeqs({Names[j] : j \in 1..n} \cup {"t"})], h \in [1..n -> homes]} :
-         /\ WellPosed(sys)
-         /\ \A i \in 1..n : Len(sys.classes[i].deps) = 2 => sys.classes[i].deps[1] # sys.classes[i].deps[2]}
-\* systems coupled with the implicit equation u + u = 8 (+ nlaDep): classes may read u, the equation may read a state or t
-ReadsU(sys) == \E i \in DOMAIN sys.classes : \E j \in DOMAIN sys.classes[i].deps : sys.classes[i].deps[j] = "u"
 \* (enumerated role by role so that the per-role restrictions prune early: constants read nothing, computed constants and
-\*  algebraic variables read something, states live in A, the implicit equation reads nothing, t or a state)
+\*  algebraic variables read something, states live in A)
 RECURSIVE SeqProd(_, _)
 SeqProd(S, i) == IF i > Len(S) THEN {<<>>} ELSE UNION {{<<x>> \o rest : rest \in SeqProd(S, i + 1)} : x \in S[i]}
 NoDup(S) == {d \in S : Len(d) = 2 => d[1] # d[2]}
 DepsFor(role, alphabet) == CASE role = "const" -> {<<>>} [] role \in {"cc", "alg"} -> NoDup(DepSeqs(alphabet)) \ {<<>>} [] OTHER -> NoDup(DepSeqs(alphabet))
+DepsForN(role, alphabet, maxDeps) == {d \in DepsFor(role, alphabet) : Len(d) <= maxDeps}
+SystemsD(n, homes, zeroK, maxDeps) ==
+    LET alphabet == {Names[j] : j \in 1..n} \cup {"t"} IN
+    UNION {UNION {{sys \in {[classes |-> [i \in 1..n |-> Class(Names[i], r[i], 10 * i, IF zeroK /\ d[i] # <<>> THEN 0 ELSE i, d[i], h[i])], nla |-> NoneS, nlaDep |-> NoneS] :
+                              h \in SeqProd([i \in 1..n |-> IF r[i] = "state" THEN {"A"} ELSE homes], 1)} : WellPosed(sys)} :
+                  d \in SeqProd([i \in 1..n |-> DepsForN(r[i], alphabet, maxDeps)], 1)} :
+           r \in [1..n -> {"const", "cc", "state", "alg"}]}
+Systems(n, homes, zeroK) == SystemsD(n, homes, zeroK, 2)
+\* systems coupled with the implicit equation u + u = 8 (+ nlaDep): classes may read u, the equation may read a state or t
+ReadsU(sys) == \E i \in DOMAIN sys.classes : \E j \in DOMAIN sys.classes[i].deps : sys.classes[i].deps[j] = "u"
 SystemsUK(n, homes, zeroK, kind) ==
     LET alphabet == {Names[j] : j \in 1..n} \cup {"t", "u"} IN
     UNION {UNION {UNION {{sys \in {[classes |-> [i \in 1..n |-> Class(Names[i], r[i], 10 * i, IF zeroK /\ d[i] # <<>> THEN 0 ELSE i, d[i], h[i])], nla |-> kind, nlaDep |-> nd] :
